@@ -58,8 +58,18 @@ func NewAvahiProvider(ifaceIndexes []int32) *AvahiProvider {
 var _ api.MdnsProviderInterface = (*AvahiProvider)(nil)
 
 func (a *AvahiProvider) Start(autoReconnect bool, cb api.MdnsResolveCB) bool {
+	return a.start(autoReconnect, cb, false)
+}
+
+// reconnect is set by the reconnect loop: a provider that was shut down manually
+// in the meantime must not be started again by it
+func (a *AvahiProvider) start(autoReconnect bool, cb api.MdnsResolveCB, reconnect bool) bool {
 	a.mux.Lock()
 	defer a.mux.Unlock()
+
+	if reconnect && a.manualShutdown {
+		return false
+	}
 
 	a.autoReconnect = autoReconnect
 	a.resolveCB = cb
@@ -241,7 +251,7 @@ func (a *AvahiProvider) attemptReconnect(cb api.MdnsResolveCB) {
 
 		<-time.After(time.Second)
 
-		if !a.Start(true, cb) {
+		if !a.start(true, cb, true) {
 			continue
 		}
 
